@@ -58,13 +58,25 @@ def kani_unit(gen, cfg='std', harness_file='src/harnesses.rs', trusted=None, ass
                 if k.get('status') == 'open' and k.get('unit') == unit_name and pid in k.get('properties', []):
                     findings_for_pid.add(k['id'])
 
+        heavy_skipped = []
+
         def selector(h):
+            hk = KINDS.get(h, {})
+            if hk.get('heavy') and tier != 'thorough':
+                if hf(h) and h not in heavy_skipped:
+                    heavy_skipped.append(h)
+                return False
             if h.startswith('kf_'):
                 return any(h.startswith('kf_' + fid.replace('-', '_') + '_') or h == 'kf_' + fid.replace('-', '_')
                            for fid in findings_for_pid)
             return hf(h)
 
-        ur = driver.run_kani_unit(unit_name, gen, cfg, selector, tier, use_cache, jobs)
+        KINDS = {}
+        def gen2(repo, od):
+            i = gen(repo, od)
+            KINDS.update({h['name']: h for h in i['harnesses']})
+            return i
+        ur = driver.run_kani_unit(unit_name, gen2, cfg, selector, tier, use_cache, jobs)
         info = ur.info
         kinds = {h['name']: h for h in info['harnesses']}
         obligations, known, samples = [], [], []
@@ -131,6 +143,7 @@ def kani_unit(gen, cfg='std', harness_file='src/harnesses.rs', trusted=None, ass
                     solver_s=round(solver_s, 2), extracted_sha256=info.get('hashes'), rewrites=info.get('rewrites'),
                     generated_tree_sha256=ur.meta['tree_hash'],
                     functions_under_contract=info.get('functions', []),
+                    thorough_only_harnesses_not_run_in_this_tier=heavy_skipped,
                     trusted=trusted or [], assumptions=(assumptions or []) + info.get('assumptions', []))
         return dict(obligations=obligations, known=known, samples=samples, meta=meta)
     return run
